@@ -6,6 +6,7 @@ import (
 	"os"
 	"reflect"
 	"runtime"
+	"strconv"
 	"strings"
 	"time"
 
@@ -336,6 +337,7 @@ func (st *c04State) decodeOnce(c *core.Ctx, ti int, data []byte, what string) (v
 	st.cur.target, st.cur.input, st.cur.what = t.name, data, what
 	core.TheCursor.Note(what, " target=", t.name, " input=", fmt.Sprintf("%x", head(data, 4000)))
 	st.wd.Step.Add(1)
+	st.wd.Busy.Store(true)
 	target := reflect.New(t.typ)
 	a0 := st.alloc.Bytes()
 	cpu0 := mon.ThreadCPU()
@@ -343,6 +345,7 @@ func (st *c04State) decodeOnce(c *core.Ctx, ti int, data []byte, what string) (v
 	fault := mon.Faulting(func() { pn = core.Guard(func() { err = st.insts[ti].Unmarshal(data, target.Interface()) }) })
 	cpu := mon.ThreadCPU() - cpu0
 	alloc := st.alloc.Bytes() - a0
+	st.wd.Busy.Store(false)
 	st.wd.Step.Add(1)
 	c.Rec.Eval(1)
 	extra := map[string]any{"target": t.name, "input": fmt.Sprintf("%x", head(data, 4000))}
@@ -385,6 +388,7 @@ func (st *c04State) descOnce(c *core.Ctx, ti int, data []byte) bool {
 	st.cur.target, st.cur.input, st.cur.what = t.name, data, "Descriptor.Read"
 	core.TheCursor.Note("Descriptor.Read target=", t.name, " input=", fmt.Sprintf("%x", head(data, 4000)))
 	st.wd.Step.Add(1)
+	st.wd.Busy.Store(true)
 	var jo plenccodec.JSONOutput
 	a0 := st.alloc.Bytes()
 	cpu0 := mon.ThreadCPU()
@@ -393,6 +397,7 @@ func (st *c04State) descOnce(c *core.Ctx, ti int, data []byte) bool {
 	fault := mon.Faulting(func() { pn = core.Guard(func() { err = d.Read(&jo, data) }) })
 	cpu := mon.ThreadCPU() - cpu0
 	alloc := st.alloc.Bytes() - a0
+	st.wd.Busy.Store(false)
 	st.wd.Step.Add(1)
 	c.Rec.Eval(1)
 	extra := map[string]any{"target": t.name, "input": fmt.Sprintf("%x", head(data, 4000)), "call": "Descriptor.Read"}
@@ -550,9 +555,47 @@ func c04Plan(tier string) (maxLen, mutBlocks, perBlock int) {
 	return 3, 16, 1500
 }
 
+// parseCorpusFile reads a "go test fuzz v1" corpus file with a byte and a []byte argument
+func parseCorpusFile(s string) (byte, []byte, bool) {
+	var target byte
+	var data []byte
+	n := 0
+	for _, l := range strings.Split(s, "\n") {
+		l = strings.TrimSpace(l)
+		switch {
+		case strings.HasPrefix(l, "byte("):
+			q := strings.TrimSuffix(strings.TrimPrefix(l, "byte("), ")")
+			if u, err := strconv.Unquote(q); err == nil && len(u) > 0 {
+				r := []rune(u)
+				target = byte(r[0])
+				if len(u) == 1 {
+					target = u[0]
+				}
+				n++
+			}
+		case strings.HasPrefix(l, "[]byte("):
+			q := strings.TrimSuffix(strings.TrimPrefix(l, "[]byte("), ")")
+			if u, err := strconv.Unquote(q); err == nil {
+				data = []byte(u)
+				n++
+			}
+		}
+	}
+	return target, data, n == 2
+}
+
 func c04Case(c *core.Ctx, idx int) {
 	st := c.State.(*c04State)
 	st.cur.idx = idx
+	if c.Arg != "" {
+		// replay of a fuzz crasher
+		if target, data, ok := parseCorpusFile(c.Arg); ok {
+			st.tryInput(c, int(target)%len(st.targets), data, true)
+		} else {
+			c.Rec.Violation("harness", "cannot parse the corpus file", nil)
+		}
+		return
+	}
 	nt := len(st.targets)
 	ti := idx % nt
 	block := idx / nt
@@ -625,10 +668,63 @@ func init() {
 			lanes := []core.Lane{{Lane: "plain", Cases: cases, Shards: 16, MemMB: 6000, TimeoutS: 3600}}
 			if tier == "thorough" {
 				lanes = append(lanes, core.Lane{Lane: "asan", Cases: len(c04Targets()) * (len(c04Alphabet) + 1 + 40), Shards: 16, TimeoutS: 3600})
+				// coverage-guided: Go's native fuzzer on the same monitors, bounded by executions, not time
+				lanes = append(lanes, core.Lane{Lane: "fuzz", Cases: 20_000_000, Shards: 1, TimeoutS: 5400})
 			}
 			return lanes
 		},
 		Setup: c04Setup,
 		Case:  c04Case,
 	})
+}
+
+// ---- coverage-guided lane: the same monitors behind a go-fuzz target ----
+
+var c04Fuzz struct {
+	ctx *core.Ctx
+	st  *c04State
+}
+
+// FuzzTargets is the number of C04 targets (the fuzz target selects one with the first input byte)
+func FuzzTargets() int { return len(c04Targets()) }
+
+// FuzzSeeds returns valid encodings per target, used as the seed corpus
+func FuzzSeeds() [][][]byte {
+	fuzzInit()
+	return c04Fuzz.st.valid
+}
+
+func fuzzInit() {
+	if c04Fuzz.ctx != nil {
+		return
+	}
+	p := core.Get("C04")
+	ctx := &core.Ctx{Prop: p, Tier: "thorough", Lane: "fuzz", Seed: 1}
+	rec, err := core.NewRecorder(os.DevNull, ctx)
+	if err != nil {
+		panic(err)
+	}
+	ctx.Rec = rec
+	c04Setup(ctx)
+	st := ctx.State.(*c04State)
+	// inside a fuzz worker a hang must fail the test, not exit the process quietly
+	st.wd.OnHang = func(step uint64, burnt time.Duration) {
+		panic(fmt.Sprintf("hang: %s of target %s consumed %.1fs of CPU without returning on input %x", st.cur.what, st.cur.target, burnt.Seconds(), st.cur.input))
+	}
+	c04Fuzz.ctx, c04Fuzz.st = ctx, st
+}
+
+// FuzzOne applies every C04 monitor to one (target, input) pair and returns the violation ("" = held)
+func FuzzOne(target byte, data []byte) string {
+	fuzzInit()
+	ctx, st := c04Fuzz.ctx, c04Fuzz.st
+	if len(data) > 60000 {
+		return ""
+	}
+	before := ctx.Rec.Violations()
+	st.tryInput(ctx, int(target)%len(st.targets), append([]byte(nil), data...), true)
+	if ctx.Rec.Violations() != before {
+		return ctx.Rec.Last
+	}
+	return ""
 }
